@@ -69,7 +69,7 @@ pub fn c17_dsu_n5_u4() {
 // Representation invariant of union by rank (with or without path compression):
 //   (I1) parents[i] < n
 //   (I2) ranks strictly increase along parent pointers  (=> acyclic, depth <= max rank)
-//   (I3) a node of rank r has at least 2^r nodes in its subtree (=> rank <= log2 n)
+//   (I3) a ROOT of rank r has at least 2^r nodes in its tree (=> rank <= log2 n)
 // Every state produced by a history of unions satisfies it; with 8 elements it admits the depth-3
 // tree that 7 unions build, which no bound of "<= 7 elements" can reach.
 
@@ -120,9 +120,12 @@ fn invariant(parents: &[usize], ranks: &[usize]) -> bool {
         }
         i += 1;
     }
+    // (I3) for ROOTS only: path compression (inside every root() call) moves nodes out of the subtrees of
+    // intermediate nodes, so the size bound is an invariant of root nodes only - which is all that is
+    // needed to bound ranks (a non-root's rank is below its root's) and hence depths
     let mut i = 0;
     while i < NI {
-        if size[i] < (1usize << ranks[i]) {
+        if parents[i] == i && size[i] < (1usize << ranks[i]) {
             return false;
         }
         i += 1;
@@ -161,40 +164,82 @@ pub fn c17_dsu_query_inductive_n8() {
     kani::cover!(same && x != y, "two distinct connected elements");
 }
 
+/// the same invariant / roots for a smaller universe (N <= NI): elements >= N are isolated singletons of the
+/// 8-element model, so every N-element state embeds into it
+fn any_state_n<const N: usize>() -> (Vec<usize>, Vec<usize>) {
+    let mut p: [usize; NI] = kani::any();
+    let mut r: [usize; NI] = kani::any();
+    let mut i = N;
+    while i < NI {
+        p[i] = i;
+        r[i] = 0;
+        i += 1;
+    }
+    let mut i = 0;
+    while i < N {
+        kani::assume(p[i] < N);
+        i += 1;
+    }
+    kani::assume(invariant(&p, &r));
+    (p[..N].to_vec(), r[..N].to_vec())
+}
+
+fn pad(v: &[usize], fill_identity: bool) -> [usize; NI] {
+    let mut out = [0usize; NI];
+    let mut i = 0;
+    while i < NI {
+        out[i] = if i < v.len() { v[i] } else if fill_identity { i } else { 0 };
+        i += 1;
+    }
+    out
+}
+
 /// union step: from any valid state, union(x,y) merges exactly the two components and keeps the invariant
-#[kani::proof]
-#[kani::unwind(10)]
-pub fn c17_dsu_union_inductive_n8() {
-    let (p, r) = any_state();
+fn union_inductive<const N: usize>() {
+    let (p, r) = any_state_n::<N>();
     let x: usize = kani::any();
     let y: usize = kani::any();
-    kani::assume(x < NI && y < NI);
+    kani::assume(x < N && y < N);
     let (rx, ry) = (true_root(&p, x), true_root(&p, y));
     let mut d = ch::VDsu::from_parts(p.clone(), r.clone());
     d.union(x, y);
     let q = d.parents().to_vec();
     let rk = d.ranks().to_vec();
     // new partition = old partition with the components of x and y merged, stated for an ARBITRARY pair
-    // (i, j) - the solver covers all 64 pairs; roots are computed once per element
+    // (i, j) - the solver covers all pairs; roots are computed once per element
     let mut before = [0usize; NI];
     let mut after = [0usize; NI];
     let mut i = 0;
-    while i < NI {
+    while i < N {
         before[i] = true_root(&p, i);
         after[i] = true_root(&q, i);
         i += 1;
     }
     let i: usize = kani::any();
     let j: usize = kani::any();
-    kani::assume(i < NI && j < NI);
+    kani::assume(i < N && j < N);
     let (ri, rj) = (before[i], before[j]);
     let was = ri == rj;
     let merged = (ri == rx || ri == ry) && (rj == rx || rj == ry);
     assert!((after[i] == after[j]) == (was || merged), "union_merges_exactly_the_two_components");
     // (two rank-3 roots cannot both exist among 8 elements, so the result always fits rank <= 3)
-    assert!(invariant(&q, &rk), "union_preserves_the_representation_invariant");
-    kani::cover!(rx != ry && r[rx] == r[ry] && r[rx] == 2, "equal-rank union creating a rank-3 root");
+    assert!(invariant(&pad(&q, true), &pad(&rk, false)), "union_preserves_the_representation_invariant");
+    // N = 8: equal-rank union creating a rank-3 root; N = 6: rank-1 set joined to a rank-2 set through a non-root member
+    let characteristic = if N == NI { rx != ry && r[rx] == r[ry] && r[rx] == 2 } else { rx != ry && r[rx] == 2 && r[ry] == 1 && y != ry };
+    kani::cover!(characteristic, "characteristic union for this size reached");
     kani::cover!(rx == ry && x != y, "already connected");
+}
+
+#[kani::proof]
+#[kani::unwind(10)]
+pub fn c17_dsu_union_inductive_n8() {
+    union_inductive::<8>();
+}
+
+#[kani::proof]
+#[kani::unwind(10)]
+pub fn c17_dsu_union_inductive_n6() {
+    union_inductive::<6>();
 }
 
 /// Kruskal on weighted clique graphs: the edges marked -1 form a spanning forest that connects
